@@ -193,6 +193,10 @@ func (c *c19Ctx) readers(in []byte, o smsObs, label string) {
 	smsReaderIndependence(c.r, in, o, label, "smsrt "+key)
 	smsMarshalTwice(c.r, o, label, "smsrt "+key, true)
 	c.nLong++
+	if c.nLong%8 == 3 {
+		// the decoder written over the bufio model, on the schedule the implementation was run with (C19_*_any_reader)
+		smsReaderCase(c.r, in, randSched(c.r.Rng, len(in)), c.r.Rng.Bool(), true, label, "smsrt "+key)
+	}
 	if c.nLong%40 == 1 {
 		// trailing octets: a septet-counted TP-UD reads TP-UDL octets, more than the packed data, so the decoded user data
 		// may take in what follows; everything before the user data and the error class must be unaffected
@@ -479,6 +483,7 @@ func c19Enh(r *Rng, f int) specEnh {
 func corrC19(r *Run) {
 	r.Import("Model.TpduRun")
 	r.Import("Spec.Gsm0340")
+	r.Import("Model.TpduReaderRun")
 	r.Rule = "TPDUs laid out by the Go transliteration of Spec/Gsm0340.v over the quantifier's classes: digit counts 1..20 (odd/even, leading zeros) " +
 		"for OA/DA/SC, alphanumeric 1..11, all 64 first octets of each type, all 256 relative VPs, enhanced (4 formats) and absolute VPs, " +
 		"zones -79..+79, 7-bit/8-bit/UCS-2 user data of boundary lengths with and without trailing zero octets, then random combinations; " +
